@@ -628,7 +628,7 @@ class ProgGen(Gen):
         P.add_func(lit, printed=False)
         fv, s_, rr = self.newvar(cx, P.sig([], [INT]), 'f'), self.newvar(cx, T, 'big'), self.newvar(cx, INT)
         out += [Decl([fv], [FuncLit(lit, P.sig([], [INT]))]), Decl([s_], [VarRef(b)]), Decl([rr], [CallV(VarRef(fv), [])]),
-                Print(True, [StrLit(b"closure"), VarRef(rr), idv(s_), buf(s_), idv(b), buf(b), Bin('eq', VarRef(s_), VarRef(b))])]
+                Print(True, [StrLit(b"closure"), VarRef(rr), idv(s_), buf(s_), idv(b), buf(b)])]
         # plain arrays: assignment, copy through a pointer, into an interface
         a, a2, pa, a3, ia, a4, ok2 = (self.newvar(cx, AT, 'arr'), self.newvar(cx, AT, 'arr'), self.newvar(cx, ('ptr', AT), 'pa'),
                                       self.newvar(cx, AT, 'arr'), self.newvar(cx, 'any', 'ia'), self.newvar(cx, AT, 'arr'), self.newvar(cx, BOOL, 'ok'))
@@ -637,7 +637,7 @@ class ProgGen(Gen):
                 Decl([pa], [Addr(VarRef(a))]), Decl([a3], [Deref(VarRef(pa))]), Assign([Index(VarRef(pa), kl)], [IntLit(I64, 5)]),
                 Decl([ia], [ToIface('any', VarRef(a3))]), Assign([el(a3)], [IntLit(I64, 6)]),
                 Decl([a4, ok2], [Assert(VarRef(ia), AT, True)]),
-                Print(True, [StrLit(b"arrays"), el(a2), el(a3), el(a4), el(a), VarRef(ok2), Bin('eq', VarRef(a2), VarRef(a4))])]
+                Print(True, [StrLit(b"arrays"), el(a2), el(a3), el(a4), el(a), VarRef(ok2)])]
         self.feat.add('large-value-%dKB' % max(1, n * 8 // 1024))
         self.feat.add('large-values')
         self.charge(cx, 200)
